@@ -39,6 +39,7 @@ type lexModel struct {
 	errFn     map[*ssa.Function]bool
 	g         *lexGraph
 	stores    []*ssa.Store
+	ltStores  map[*ssa.Store]bool // stores after which the content is known < len
 }
 
 // lexGraph is the scanner's CFG with infeasible boolean-phi paths threaded out.
@@ -236,7 +237,92 @@ func (c *Ctx) lexModel() (*lexModel, string) {
 		}
 	}
 	m.g = buildLexGraph(fn)
+	m.ltStores = map[*ssa.Store]bool{}
+	for _, st := range m.stores {
+		if m.indexOfStore(st) {
+			m.ltStores[st] = true
+		}
+	}
 	return m, ""
+}
+
+// indexOfStore: `pos = pos + k` with k = strings.IndexByte/Index(usage[pos:], x) known >= 0: the new
+// position is that of a byte of the input, hence < len.
+func (m *lexModel) indexOfStore(st *ssa.Store) bool {
+	bo, ok := st.Val.(*ssa.BinOp)
+	if !ok || bo.Op != token.ADD || !m.isPosLoad(bo.X) {
+		return false
+	}
+	call, ok := bo.Y.(*ssa.Call)
+	if !ok {
+		return false
+	}
+	f := call.Call.StaticCallee()
+	if f == nil || !(ir.IsStdFunc(f, "strings", "IndexByte") || ir.IsStdFunc(f, "strings", "Index") || ir.IsStdFunc(f, "strings", "IndexRune")) {
+		return false
+	}
+	sl, ok := call.Call.Args[0].(*ssa.Slice)
+	if !ok || !m.isUsage(sl.X) || sl.High != nil || sl.Low == nil || !m.isPosLoad(sl.Low) {
+		return false
+	}
+	// no store to pos between the slice's load, the added load and this store
+	if !m.sameVersion(sl.Low, bo.X) {
+		if !m.noStoreBetween(sl.Low.(ssa.Instruction), bo.X.(ssa.Instruction)) {
+			return false
+		}
+	}
+	li := bo.X.(ssa.Instruction)
+	if li.Block() != st.Block() || m.storeIn(st.Block(), ir.IndexIn(li), ir.IndexIn(st)) >= 0 {
+		return false
+	}
+	// k >= 0 at the store
+	okGuard := false
+	ir.Instrs(m.fn, func(in ssa.Instruction) {
+		c, isBo := in.(*ssa.BinOp)
+		if !isBo || c.X != ssa.Value(call) {
+			return
+		}
+		k, isK := ir.ConstInt(c.Y)
+		if !isK {
+			return
+		}
+		for _, want := range []bool{true, false} {
+			if ir.HoldsAt(c, want, st.Block()) {
+				// (k' op k) == want must exclude every negative k'
+				if t, okT := lenCmp(c.Op, -1, k); okT && t != want {
+					okGuard = true
+				}
+			}
+		}
+	})
+	return okGuard
+}
+
+// noStoreBetween: a dominates b and no store to pos can execute between them.
+func (m *lexModel) noStoreBetween(a, b ssa.Instruction) bool {
+	if a.Block() == b.Block() {
+		lo, hi := ir.IndexIn(a), ir.IndexIn(b)
+		if lo > hi {
+			lo, hi = hi, lo
+		}
+		return m.storeIn(a.Block(), lo, hi) < 0
+	}
+	if !a.Block().Dominates(b.Block()) {
+		return false
+	}
+	if m.storeIn(a.Block(), ir.IndexIn(a), len(a.Block().Instrs)) >= 0 || m.storeIn(b.Block(), 0, ir.IndexIn(b)) >= 0 {
+		return false
+	}
+	r := m.g.reach(a.Block().Succs, map[*ssa.BasicBlock]bool{a.Block(): true, b.Block(): true}, nil)
+	for x := range r {
+		if x != a.Block() && x != b.Block() && m.kill(x) {
+			// only if b can still be reached from x (without going through a again)
+			if m.g.reach(m.g.succ[x], map[*ssa.BasicBlock]bool{a.Block(): true}, nil)[b.Block()] {
+				return false
+			}
+		}
+	}
+	return true
 }
 
 func (m *lexModel) isUsage(v ssa.Value) bool {
@@ -278,6 +364,19 @@ func (m *lexModel) sameVersion(a, b ssa.Value) bool {
 }
 
 func (m *lexModel) kill(b *ssa.BasicBlock) bool { return m.storeIn(b, 0, len(b.Instrs)) >= 0 }
+
+// lastStoreLT: the last store to pos in b[0:to) exists and leaves a content known < len.
+func (m *lexModel) lastStoreLT(b *ssa.BasicBlock, to int) bool {
+	for i := to - 1; i >= 0; i-- {
+		if i >= len(b.Instrs) {
+			continue
+		}
+		if st, ok := b.Instrs[i].(*ssa.Store); ok && st.Addr == ssa.Value(m.pos) {
+			return m.ltStores[st]
+		}
+	}
+	return false
+}
 
 // guardEdges: CFG edges on which the current content of pos is known < len,
 // given the invariant pos <= len.
@@ -344,6 +443,9 @@ func (m *lexModel) unguardedEntry() map[*ssa.BasicBlock]bool {
 			if !(u[b] || m.kill(b)) {
 				continue
 			}
+			if m.kill(b) && m.lastStoreLT(b, len(b.Instrs)) {
+				continue // leaves b with a content known < len
+			}
 			for _, s := range m.g.succ[b] {
 				if guards[ir.Edge{From: b, To: s}] {
 					// a threaded edge keeps the guard of the original edge only if it is the same edge
@@ -365,7 +467,7 @@ func (m *lexModel) ltAt(ld ssa.Value, unguarded map[*ssa.BasicBlock]bool) bool {
 	li := ld.(ssa.Instruction)
 	b := li.Block()
 	if m.storeIn(b, 0, ir.IndexIn(li)) >= 0 {
-		return false
+		return m.lastStoreLT(b, ir.IndexIn(li))
 	}
 	return !unguarded[b]
 }
@@ -531,6 +633,14 @@ func lex1(c *Ctx) {
 			c.Check(k == 0 && st.Block() == fn.Blocks[0], key, st.Pos(), "initialised to 0 on entry", "the position is set to a constant other than the initial 0")
 			continue
 		}
+		if m.eof[st.Val] {
+			c.OK(key, st.Pos(), "set to len(usage): old pos <= pos <= len")
+			continue
+		}
+		if m.ltStores[st] {
+			c.OK(key, st.Pos(), "advanced by a non-negative index into usage[pos:]: the new position is that of a byte of the input (< len)")
+			continue
+		}
 		bo, ok := st.Val.(*ssa.BinOp)
 		if !ok || bo.Op != token.ADD || !m.isPosLoad(bo.X) {
 			good, whyNot := m.cursorStoreOK(st, unguarded)
@@ -595,6 +705,10 @@ func lex1(c *Ctx) {
 					c.Check(m.ltAt(sl.Low, unguarded) && m.ltAt(bo.X, unguarded), key, sl.Pos(), "usage[p:p+1] with p known < len", "one-byte slice at a position not known to be < len")
 					return
 				}
+			}
+			if sl.High == nil && sl.Low != nil && m.isPosLoad(sl.Low) {
+				c.OK(key, sl.Pos(), "usage[pos:] with pos <= len")
+				return
 			}
 			okHi := sl.High != nil && m.isPosLoad(sl.High)
 			okLo := sl.Low != nil && m.isPosLoad(sl.Low) && sl.Low.(ssa.Instruction).Block().Dominates(sl.Block())
@@ -950,6 +1064,12 @@ func kindsOf(v ssa.Value) []string {
 			for _, e := range x.Edges {
 				walk(e)
 			}
+		case *ssa.Extract:
+			if lk, isLk := x.Tuple.(*ssa.Lookup); isLk && x.Index == 0 {
+				walk(lk)
+				return
+			}
+			out = append(out, "?")
 		case *ssa.Lookup:
 			ks := mapTableValues(x.X)
 			if len(ks) == 0 {
